@@ -5,6 +5,6 @@
 set -e
 HERE="$(cd "$(dirname "$0")" && pwd)"
 python3-vt -c "import crosshair, z3; print('crosshair ok, z3', z3.get_version_string())"
-PYTHONPATH="${VERIF_REPO:-/repo}:$HERE" python3-vt "$HERE/vlib/plugin.py"
+PYTHONPATH="${VERIF_REPO:-/repo}:$HERE" python3-vt -m vlib.plugin
 PYTHONPATH="${VERIF_REPO:-/repo}" /venv/bin/python -c "import bisturi; print('bisturi', bisturi.__version__)"
 mkdir -p "$HERE/evidence" "$HERE/replays"
